@@ -285,16 +285,11 @@ def term(case, obs):
     return f"obs_case {zlit(obs['net0'])} {listlit(alone)} {listlit(runs)}"
 
 
-# ------------------------------------------------------------------ known findings (narrow)
-def is_twin_bidir(v):
-    """requests_aggregation merges two requests that differ only in `bidirectional` (compare_reqs does not look at
-    bidir): the bidirectional twin loses its Z-A propagation and verdict (or the unidirectional one gains them)."""
-    d = v.get('detail') or {}
-    return (v.get('key') == 'batch_changes_result' and d.get('aggregated') is True and d.get('twin_bidir_differs') is True
-            and d.get('only_reverse_part') is True)
-
-
-MATCHERS = {'F16-aggregation-ignores-bidir': is_twin_bidir}
+# ------------------------------------------------------------------ known findings
+# none open.  (requests_aggregation used to merge twins that differ in `bidirectional`; found here as
+# batch_changes_result with detail aggregated / twin_bidir_differs / only_reverse_part, fixed in /repo by 098fa997;
+# corpus/C16/twin_bidir_aggregated.json keeps the case.)
+MATCHERS = {}
 
 
 # ------------------------------------------------------------------ run
